@@ -143,7 +143,9 @@ func evalTerm(t *Term, a map[string]uint64, memo map[*Term]uint64) (uint64, bool
 	return r, true
 }
 
-func isDrawVar(t *Term) bool { return t.op == "var" && len(t.name) > 1 && t.name[0] == 'd' && t.name[1] >= '0' && t.name[1] <= '9' }
+func isDrawVar(t *Term) bool {
+	return t.op == "var" && len(t.name) > 1 && t.name[0] == 'd' && t.name[1] >= '0' && t.name[1] <= '9'
+}
 
 // realise turns an abstract model of a path with signature-predicate applications into one the real
 // primitives agree with: for every library-side application of V that the model makes true, whose key and
